@@ -173,7 +173,7 @@ crate::harnesses! { REG;
     #[unwind(12)]
     fn c09_field_unique_more() { field_unique::<DF257, EmptyFlags, 2>(); field_unique::<DF257, SWFlags, 2>(); field_unique::<DF65537, EmptyFlags, 3>(); field_unique::<DF65537, TEFlags, 3>() }
 
-    /// quick required unwindset=sw_double_and_add:5,>::pow:6,SqrtPrecomputation:7 | SW cofactor 4 over F_13: ALL points of the prime-order subgroup (identity included) x 4 modes, affine and projective (ALL rescalings): round trip, bytes written == serialized_size == advertised size
+    /// thorough required timeout=2400 unwindset=sw_double_and_add:5,>::pow:6,SqrtPrecomputation:7 | SW cofactor 4 over F_13: ALL points of the prime-order subgroup (identity included) x 4 modes, affine and projective (ALL rescalings): round trip, bytes written == serialized_size == advertised size
     #[unwind(70)]
     fn c09_sw_points_cof4() { sw_point_roundtrip::<SwCof4, 3>(true) }
     /// quick required unwindset=sw_double_and_add:5,>::pow:6,SqrtPrecomputation:7 | SW a=0 (cofactor 1, order 19): ALL points x 4 modes, affine and projective
